@@ -30,6 +30,9 @@ theorem raise_post_qual : (raiseOf "post_submodel_submodel_element_qualifiers" 0
 theorem raise_put_qual : (raiseOf "put_submodel_submodel_element_qualifiers" 0 : Res α) = .http 409 := rfl
 
 theorem catch_json_list : (catching "json_list" (.py .valueError) : Res α) = .http 422 := rfl
+theorem catch_json_list_recursion : (catching "json_list" (.py .recursionError) : Res α) = .http 422 := rfl
+theorem catch_xml_syntax : (catching "xml" (.py .xmlSyntaxError) : Res α) = .http 422 := rfl
+theorem catch_xml_type : (catching "xml" (.py .typeError) : Res α) = .http 422 := rfl
 theorem catch_xml_key : (catching "xml" (.py .keyError) : Res α) = .http 422 := rfl
 theorem catch_xml_value : (catching "xml" (.py .valueError) : Res α) = .http 422 := rfl
 theorem catch_get_slice : (catching "_get_slice" (.py .valueError) : Res α) = .http 400 := rfl
@@ -196,6 +199,12 @@ theorem requestBody_cases (fn : String) (r : Req) (h : expectOf fn ≠ .unmodell
           by_cases hj : r.ctype = .json
           · rw [if_pos hj]; exact catch_json_list
           · rw [if_neg hj]; exact catch_xml_value
+        | tooDeep =>
+          right; right
+          simp only []
+          by_cases hj : r.ctype = .json
+          · rw [if_pos hj, if_pos hj]; exact catch_json_list_recursion
+          · rw [if_neg hj, if_neg hj]; exact catch_xml_syntax
       · right; left
         rw [if_pos hv]; exact raise_request_body
     · rw [if_neg hc] at h; exact absurd rfl h
